@@ -10,6 +10,7 @@ import PhyVerif.Lemmas.C04d
 import PhyVerif.Lemmas.C04e
 import PhyVerif.Model.C04f
 import PhyVerif.Lemmas.C04f
+import PhyVerif.Lemmas.C04g
 /-!
 # C04 — loading a dataset reproduces its files under every supported layout
 Only property theorems + non-vacuity examples; proofs in `Lemmas/C04*.lean`.
@@ -76,6 +77,24 @@ theorem clusters_default (inv : Arr → Arr) (d : Dir) (v : View) (d' : Dir) (h 
     ∃ f, findPath d ["spike_templates.npy", "spikes.templates*.npy"] = some f ∧
       d'.lookup "spike_clusters.npy" = d.lookup f :=
   Lemmas.clusters_default inv d v d' h hn
+
+/-- **wmi_default** ("the whitening matrix and its inverse … the documented default substituted"; `np.linalg.inv` is
+the parameter `inv`): when the directory holds no `whitening_mat_inv.npy` the view carries no stored inverse and the
+file the loader writes holds exactly what `inv` returned on the whitening matrix THE VIEW SHOWS (`_compute_wmi`,
+model.py:743-751, returns the same array it writes); without a whitening matrix the model writes the empty token
+array that stands for the inverse of the identity. -/
+theorem wmi_default (inv : Arr → Arr) (d : Dir) (v : View) (d' : Dir) (h : load inv d = .ok (v, d'))
+    (hn : d.lookup "whitening_mat_inv.npy" = none) :
+    v.wmi = none ∧
+    d'.lookup "whitening_mat_inv.npy" = some (match v.wm with | some w => inv w | none => ⟨[], []⟩) :=
+  Lemmas.wmi_default inv d v d' h hn
+
+/-- … and a stored inverse is shown as it is stored (at least 2-D, squeezed, scrubbed); by `load_frame` nothing is
+written for it. -/
+theorem wmi_stored (inv : Arr → Arr) (d : Dir) (v : View) (d' : Dir) (h : load inv d = .ok (v, d'))
+    (a : Arr) (ha : d.lookup "whitening_mat_inv.npy" = some a) :
+    v.wmi = some (atleast 2 (squeeze (scrub a))) :=
+  Lemmas.wmi_stored inv d v d' h a ha
 
 /-- Layout independence: a directory holding only KiloSort/phy-named arrays
 and the ALF-named directory holding the same arrays (plus any non-decreasing spike times in seconds)
@@ -159,6 +178,23 @@ theorem samples_recovered (rate : Rat) (hr : 0 < rate) (s : Int) :
     roundHalfEven ((s : Rat) / rate * rate) = s :=
   Lemmas.samples_recovered rate hr s
 
+/-- **samples_recovered_of_stored** — "samples recovered by rounding" for the STORED seconds (`samples_recovered`
+above is the special case of seconds stored exactly, where the product IS the integer): whenever the stored time `t`
+— any rounding of `s / rate` to the stored precision — lies less than half a sample period from sample `s`
+(`|t·rate − s| < 1/2`), rounding `t · rate` gives `s`.  For float64 seconds of a recording of any practical length the
+hypothesis holds (relative error 2⁻⁵³); for float32 seconds late in a recording it does NOT (spacing 2⁻¹² s = 7 sample
+periods at 30 kHz past 512 s): then the samples are the stored seconds times the rate, rounded, which is what
+`load_samples_times` states and what the correspondence checks exactly (the product of a float32 and the rate is exact
+in double precision; /repo HEAD forms it in single precision: PF-C04c). -/
+theorem samples_recovered_of_stored (rate t : Rat) (s : Int)
+    (h1 : (s : Rat) - 1 / 2 < t * rate) (h2 : t * rate < (s : Rat) + 1 / 2) :
+    roundHalfEven (t * rate) = s :=
+  Lemmas.samples_recovered_of_stored rate t s h1 h2
+
+/-- 600.000244140625 s (float32 of 18000007 / 30000) is 0.32 sample periods from sample 18000007 -/
+example : roundHalfEven ((600000244140625 : Rat) / 1000000000000 * 30000) = 18000007 := by
+  apply samples_recovered_of_stored <;> decide +kernel
+
 /-! ## The full loader `loadFull` -/
 section Full
 variable {β : Type} (inv : Arr → Arr) (rate : Rat) (tden ncd : Nat) (one : Cell)
@@ -236,8 +272,8 @@ theorem load_shapes (h : loadFull inv rate tden ncd one raw d = .ok (fv, d')) :
 /-- Extra per-spike attributes: attribute `n` with value `x` is shown exactly when the ORIGINAL
 directory holds `spike_<n>.npy`, `n` is not a reserved name, `x` is that file scrubbed and squeezed
 and its first dimension is the number of spikes (the files created by the loader add nothing).
-Outside: a `spike_<n>.npy` that squeezes to a 0-d array makes `loadFull` — and the real loader,
-with an uncaught IndexError — fail. -/
+A `spike_<n>.npy` that squeezes to a 0-d array (one stored value) has no first dimension: it is not shown and
+does not stop the load (the loader at /repo HEAD fails there with an uncaught IndexError: PF-C04c). -/
 theorem load_spike_attributes (h : loadFull inv rate tden ncd one raw d = .ok (fv, d')) (n : String) (x : Arr) :
     (n, x) ∈ fv.spikeAttributes ↔ IsSpikeAttr d fv.nSpikes n x :=
   Lemmas.loadFull_spike_attributes inv rate tden ncd one raw d fv d' h n x
@@ -308,6 +344,32 @@ theorem load_features (d : Dir) (nt : Nat) (s : Sparse) (h : loadFeatures d nt =
       Row d ["pc_feature_spike_ids.npy"] (fun r => squeeze (scrub r)) s.rows ∧
       (∀ r, s.rows = some r → r.shape = [s.data.shape.headD 0]) :=
   Lemmas.loadFeatures_some d nt s h
+
+/-- **load_features_entries**: WHAT is shown, by entries and without the model's helpers: for a stored
+`pc_features.npy` of shape `(n_spikes, n_pcs, n_loc)` the shown array has shape `(n_spikes, n_loc, n_pcs)` and
+`data[s][c][k] = file[s][k][c]`.
+Hypothesis: no stored dimension has size 1 (DESIGN §5 C04 "well-formed").  It is NEEDED: with ONE component per
+channel (`(n, 1, q)`) the loader — and `loadFeatures`, which mirrors it — squeezes the file to `(n, q)`, appends the
+axis at the END (`(n, q, 1)`, model.py:776-778 "Deal with npcs = 1") and exchanges: the result has shape `(n, 1, q)`,
+i.e. channels and components are exchanged (the real code then fails on `pc_feature_ind.npy`, AssertionError
+model.py:793, or shows `get_features` rows with the channels as components).  The `example` after this theorem shows
+that shape; `load_features` alone (its right-hand side is `transpose021 (feat3 a)`) does not tell. -/
+theorem load_features_entries (d : Dir) (nt : Nat) (s : Sparse) (h : loadFeatures d nt = .ok (some s))
+    (a : Arr) (ha : d.lookup "pc_features.npy" = some a) (n p q : Nat) (hs : a.shape = [n, p, q])
+    (hn : n ≠ 1) (hp : p ≠ 1) (hq : q ≠ 1) (hl : a.data.length = n * (p * q)) :
+    s.data.shape = [n, q, p] ∧
+    ∀ i j k, i < n → j < p → k < q →
+      s.data.data[i * (q * p) + (k * p + j)]? = a.data[i * (p * q) + (j * q + k)]? :=
+  Lemmas.loadFeatures_entries d nt s h a ha n p q hs hn hp hq hl
+
+/-- the hypotheses are met by a `(2, 2, 3)` file … -/
+example : (match loadFeatures [("pc_features.npy", ⟨[2, 2, 3], (List.range 12).map fun (i : Nat) => .num (i : Int)⟩)] 2 with
+    | .ok (some s) => (s.data.shape, s.data.data.map cellInt) | _ => ([], [])) =
+    ([2, 3, 2], [0, 3, 1, 4, 2, 5, 6, 9, 7, 10, 8, 11]) := by decide
+/-- … and NOT by one component per channel: a `(4, 1, 2)` file is shown with shape `(4, 1, 2)`, not `(4, 2, 1)`
+(excluded by `hp`; what the code at model.py:776-778 does, not what the table says) -/
+example : (match loadFeatures [("pc_features.npy", ⟨[4, 1, 2], (List.range 8).map fun (i : Nat) => .num (i : Int)⟩)] 2 with
+    | .ok (some s) => s.data.shape | _ => []) = [4, 1, 2] := by decide
 
 /-- … and no features are shown only when the file is absent -/
 theorem load_features_absent (d : Dir) (nt : Nat) (h : loadFeatures d nt = .ok none) :
@@ -412,9 +474,11 @@ example : Wins [("spikes.times.npy", ⟨[3], [.num 1, .nan, .num 2]⟩)] ["spike
   ⟨0, by decide, by decide, by decide, fun j _ hj => absurd hj (by omega)⟩
 example : C01.InDom exRaw.flatten.length (.slice (some 1) none) := by
   unfold C01.InDom; refine ⟨?_, ?_, ?_⟩ <;> decide
-/-- a 0-d extra attribute makes the load fail (real code: IndexError) -/
-example : (match loadSpikeAttributes 3 [("spike_x.npy", ⟨[1], [.num 5]⟩)] with
-    | .error (.scalarAttr f) => f | _ => "") = "spike_x.npy" := by decide
+/-- an extra attribute file holding ONE value (0-d after the squeeze) is an attribute of the wrong length: not shown,
+the others are -/
+example : (match loadSpikeAttributes 3 [("spike_x.npy", ⟨[1], [.num 5]⟩), ("spike_y.npy", ⟨[1, 1], [.num 5]⟩),
+      ("spike_z.npy", ⟨[3, 1], [.num 5, .num 6, .num 7]⟩)] with
+    | .ok l => l.map (·.1) | _ => ["?"]) = ["z"] := by decide
 /-- only the EXACT reserved names are the loader's own files (`n in SKIP_SPIKE_ATTRS`, model.py:527): a name that
 extends a reserved name (`times_sec`), is a proper prefix of one (`time`) or ends with one (`raw_samples`) is an
 attribute like any other; `spike_times_reordered.npy` and `spike_samples.npy` are not -/
@@ -458,6 +522,15 @@ example :
                                  ("template_feature_spike_ids.npy", ⟨[2], [.num 0, .num 5]⟩)] 3 with
      | .ok (some s) => some (s.data.data, s.cols, s.rows)
      | _ => none) = some ([.num 1, .nan, .num 3, .num 4], none, some ⟨[2], [.num 0, .num 5]⟩) := by decide
+/-- `wmi_default` on a concrete directory: a load with `inv` = "double every cell" writes the doubled matrix the view shows -/
+example :
+    (match load (fun w => ⟨w.shape, w.data.map fun c => match c with | .num i => .num (2 * i) | c => c⟩)
+        [("spike_times.npy", ⟨[3], [.num 1, .num 2, .num 5]⟩), ("spike_templates.npy", ⟨[3], [.num 0, .num 1, .num 0]⟩),
+         ("channel_map.npy", ⟨[2], [.num 0, .num 1]⟩), ("channel_positions.npy", ⟨[2, 2], [.num 0, .num 0, .num 0, .num 1]⟩),
+         ("whitening_mat.npy", ⟨[2, 2], [.num 4, .nan, .num 0, .num 8]⟩)] with
+     | .ok (v, d') => some (v.wmi, v.wm.map (·.data), (d'.lookup "whitening_mat_inv.npy").map (·.data))
+     | .error _ => none) =
+    some (none, some [.num 4, .num 0, .num 0, .num 8], some [.num 8, .num 0, .num 0, .num 16]) := by decide +kernel
 /-- hypothesis of `features_frame` for the six feature files -/
 example : ∀ name ∈ ["pc_features.npy", "pc_feature_ind.npy", "pc_feature_spike_ids.npy", "template_features.npy",
       "template_feature_ind.npy", "template_feature_spike_ids.npy"],
